@@ -308,10 +308,21 @@ def check_decompile(ctx: Ctx, fi: Optional[FuncInfo], step: FuncInfo):
     if fi is None:
         raise AnchorError(f"{DEC}.Decompiler.decompile", "not found")
     loops = [l for l in q.for_loops(fi.node) if isinstance(l.target, ast.Tuple) and len(l.target.elts) == 3]
+    enum_idx = None
+    if not loops:
+        # `for i, (g, w, p) in enumerate(gates)`: the running index is the loop's own counter
+        for l in q.for_loops(fi.node):
+            t, itx = l.target, l.iter
+            if (
+                isinstance(t, ast.Tuple) and len(t.elts) == 2 and isinstance(t.elts[0], ast.Name) and isinstance(t.elts[1], ast.Tuple) and len(t.elts[1].elts) == 3
+                and isinstance(itx, ast.Call) and isinstance(itx.func, ast.Name) and itx.func.id == "enumerate" and len(itx.args) == 1 and not itx.keywords
+            ):
+                loops.append(l)
+                enum_idx = t.elts[0].id
     if len(loops) != 1:
         raise AnchorError(fi.short, "gate loop not found")
     loop = loops[0]
-    it = loop.iter
+    it = loop.iter if enum_idx is None else loop.iter.args[0]
     # vanilla copy
     cp = [n for n in walk_no_nested(fi.node) if isinstance(n, ast.Assign) and isinstance(n.value, ast.Call) and isinstance(n.value.func, ast.Attribute) and n.value.func.attr == "copy" and n.value.args and isinstance(n.value.args[0], ast.Constant) and n.value.args[0].value is True]
     ctx.check(len(cp) == 1, "TS-SECTION", fi, "works on a vanilla copy", "qubits are named q<i>, the argument is untouched", "the circuit is not copied with vanilla=True: expressions would use (possibly duplicated) compiler names", fi.node)
@@ -339,12 +350,17 @@ def check_decompile(ctx: Ctx, fi: Optional[FuncInfo], step: FuncInfo):
     ctx.check(sentinel or post_flush, "TS-SECTION", fi, "last section is flushed", "non-classical sentinel appended to the gate list" if sentinel else "flush after the loop", "a classical run that reaches the end of the circuit is never reported (no sentinel, no flush after the loop)", loop)
     # index advances once per iteration, unconditionally
     idx = None
-    for s in loop.body:
-        if isinstance(s, ast.AugAssign) and isinstance(s.op, ast.Add) and isinstance(s.value, ast.Constant) and s.value.value == 1 and isinstance(s.target, ast.Name):
-            idx = s.target.id
-    inner_incs = [n for n in ast.walk(loop) if isinstance(n, ast.AugAssign) and isinstance(n.target, ast.Name) and n.target.id == idx and n not in loop.body]
-    has_continue = any(isinstance(n, ast.Continue) for n in ast.walk(loop))
-    ctx.check(idx is not None and not inner_incs and not has_continue, "TS-SECTION", fi, "gate index advances exactly once per gate", f"`{idx} += 1` is an unconditional statement of the loop", "the running gate index is not incremented exactly once per visited gate (section ranges drift)", loop)
+    if enum_idx is not None:
+        idx = enum_idx
+        rebinds = [n for n in ast.walk(loop) if isinstance(n, (ast.Assign, ast.AugAssign)) and any(isinstance(x, ast.Name) and x.id == idx and isinstance(x.ctx, ast.Store) for x in ast.walk(n))]
+        ctx.check(not rebinds, "TS-SECTION", fi, "gate index advances exactly once per gate", f"`{idx}` is the counter of enumerate()", f"the enumerate counter `{idx}` is re-bound inside the loop (section ranges drift)", rebinds[0] if rebinds else loop)
+    else:
+        for s in loop.body:
+            if isinstance(s, ast.AugAssign) and isinstance(s.op, ast.Add) and isinstance(s.value, ast.Constant) and s.value.value == 1 and isinstance(s.target, ast.Name):
+                idx = s.target.id
+        inner_incs = [n for n in ast.walk(loop) if isinstance(n, ast.AugAssign) and isinstance(n.target, ast.Name) and n.target.id == idx and n not in loop.body]
+        has_continue = any(isinstance(n, ast.Continue) for n in ast.walk(loop))
+        ctx.check(idx is not None and not inner_incs and not has_continue, "TS-SECTION", fi, "gate index advances exactly once per gate", f"`{idx} += 1` is an unconditional statement of the loop", "the running gate index is not incremented exactly once per visited gate (section ranges drift)", loop)
     # section record = (buffer, step(buffer), (start, end))
     sa = sec_apps[0]
     ds_init = ctx.repo.cls(f"{DEC}.DecompiledSection").methods.get("__init__")
@@ -369,6 +385,23 @@ def check_decompile(ctx: Ctx, fi: Optional[FuncInfo], step: FuncInfo):
         else:
             ctx.check(norm(st_args[1]) == buf, "TS-SECTION", fi, "section expressions come from the section's own gates", f"exps = step(qc, {buf})", f"the expressions attached to a section are computed from `{norm(st_args[1])}`, not from that section's gate buffer `{buf}`", sa)
     rng = sa_args[2]
+    if isinstance(rng, ast.Tuple) and len(rng.elts) == 2 and isinstance(rng.elts[1], ast.Name):
+        # `end = i - 1 if <previous gate is a no-op> else i; (start, end)`: the same two-way choice, of the end only
+        edefs = [n for n in ast.walk(loop) if isinstance(n, (ast.Assign, ast.AugAssign)) and any(isinstance(x, ast.Name) and x.id == rng.elts[1].id and isinstance(x.ctx, ast.Store) for x in ast.walk(n))]
+        if len(edefs) == 1 and isinstance(edefs[0], ast.Assign) and isinstance(edefs[0].value, ast.IfExp):
+            ie = edefs[0].value
+            synth = ast.Assign(
+                targets=[ast.Name(id="_rng", ctx=ast.Store())],
+                value=ast.IfExp(test=ie.test, body=ast.Tuple(elts=[rng.elts[0], ie.body], ctx=ast.Load()), orelse=ast.Tuple(elts=[rng.elts[0], ie.orelse], ctx=ast.Load())),
+            )
+            ast.copy_location(synth, edefs[0])
+            ast.fix_missing_locations(synth)
+            rng_choice = (edefs[0], ie.test, synth.value.body, synth.value.orelse)
+            rng = ast.Name(id="_rng", ctx=ast.Load())
+        else:
+            rng_choice = None
+    else:
+        rng_choice = None
     if isinstance(rng, ast.Name):
         # `rng = (start, i - 1) if <previous gate is a no-op> else (start, i)`, as statement or expression
         rdefs = [n for n in ast.walk(loop) if isinstance(n, ast.Assign) and len(n.targets) == 1 and norm(n.targets[0]) == rng.id]
@@ -379,6 +412,8 @@ def check_decompile(ctx: Ctx, fi: Optional[FuncInfo], step: FuncInfo):
                 alts = (pif, pif.test, pif.body[0].value, pif.orelse[0].value)
         elif len(rdefs) == 1 and isinstance(rdefs[0].value, ast.IfExp):
             alts = (rdefs[0], rdefs[0].value.test, rdefs[0].value.body, rdefs[0].value.orelse)
+        if rng_choice is not None:
+            alts = rng_choice
         if alts is None or not all(isinstance(a, ast.Tuple) and len(a.elts) == 2 for a in alts[2:]):
             raise AnchorError(fi.short, f"the section range `{rng.id}` is not chosen between two (start, end) pairs")
         host, test, yes, no = alts
@@ -413,8 +448,19 @@ def check_decompile(ctx: Ctx, fi: Optional[FuncInfo], step: FuncInfo):
             raise AnchorError(fi.short, f"the section end index is computed as {shapes}, a form outside the tables ({want}): cannot decide that the reported range covers exactly the gates of the run")
         dec = [d for d in defs if isinstance(d, ast.AugAssign)][0]
         par_if = fi.pm.get(dec)
-        ok = isinstance(par_if, ast.If) and "NopGate" in norm(par_if.test) and f"[{idx} - 1]" in norm(par_if.test)
-        ctx.check(ok, "TS-SECTION", fi, "end index excludes a no-op directly before the closing gate", norm(par_if.test)[:70] if isinstance(par_if, ast.If) else "", "the end index is decremented under a condition other than `the previous gate is a no-op`", dec)
+        if not isinstance(par_if, ast.If):
+            ctx.check(False, "TS-SECTION", fi, "end index excludes a no-op directly before the closing gate", "", "the end index is decremented unconditionally", dec)
+        else:
+            tv = q.value_at(loop.body, par_if, par_if.test)  # `end = i; if nop(gates[end - 1])`: read as gates[i - 1]
+            if tv is None:
+                raise AnchorError(fi.short, "the condition under which the end index is decremented has no single reaching definition")
+            tn = norm(tv)
+            if "NopGate" in tn and f"[{idx} - 1]" in tn and not isinstance(tv, ast.UnaryOp):
+                ctx.ok("TS-SECTION", fi, "end index excludes a no-op directly before the closing gate", tn[:70], dec)
+            elif "NopGate" in tn:
+                ctx.check(False, "TS-SECTION", fi, "end index excludes a no-op directly before the closing gate", "", f"the end index is decremented under `{tn[:90]}`, which is not `the gate at index {idx} - 1 is a no-op`", dec)
+            else:
+                raise AnchorError(fi.short, f"the end index is decremented under `{tn[:80]}`, a condition outside the tables")
     elif rng is not None:
         raise AnchorError(fi.short, "section range is not (start, <name>)")
     # buffer reset after flush; start index recorded when the buffer opens
